@@ -127,6 +127,9 @@ func runScn(r *Report, sc *Scn, splitIdx, splitK int) {
 	if !opts.Unbounded && !opts.UseCache {
 		opts.UseCache = true
 	}
+	if verifrt.RaceEnabled {
+		opts.AfterRun = func(o *verifrt.Outcome) []string { return newRaceReports(prop, sc.Name) }
+	}
 	ts := time.Now()
 	vsc := &verifrt.Scenario{Name: sc.Name, Body: sc.Body, Check: func(o *verifrt.Outcome) []string {
 		var out []string
@@ -368,6 +371,16 @@ func ReplayFile(path string) int {
 					fmt.Printf("  %s: %s\n", f.Sig, f.Msg)
 				}
 			}
+			// race mode: the detector reports one access pair once per process, so a report in
+			// either run counts
+			for _, rr := range newRaceReports(rec.Property, sc.Name) {
+				if k := strings.Index(rr, "|"); k > 0 {
+					sigs[0] = append(sigs[0], rr[:k])
+					if rr[:k] == rec.Signature {
+						fmt.Printf("  %s: %s\n", rr[:k], rr[k+1:])
+					}
+				}
+			}
 			logs[i] = fmt.Sprint(o.Log, o.Deadlock, o.Blocked, o.Steps)
 			if i == 0 {
 				for _, l := range trunc(o.Log, 100) {
@@ -430,4 +443,92 @@ func TraceDefault(prop, tier, name string, n int) {
 		}
 		fmt.Println("aborted:", o.Aborted, "deadlock:", o.Deadlock, "fails:", o.Fails, "blocked:", o.Blocked)
 	}
+}
+
+// ---- race mode: attributing detector reports to executions ----
+
+var raceLogOffset int64
+
+// RaceReports counts, per scenario, the detector reports attributed to it (used by the runtime's
+// self-check, pseudo-property RT, where reports in the litmus programs are the expected result).
+var RaceReports = map[string]int{}
+
+// newRaceReports reads what the race detector has appended to its log since the last call and
+// returns one violation per report that involves a non-test file of the repository. The worker
+// runs with GORACE=log_path=$VERIF_RACE_LOG, the runtime writes to <path>.<pid>.
+func newRaceReports(prop, scenario string) []string {
+	base := os.Getenv("VERIF_RACE_LOG")
+	if base == "" {
+		return nil
+	}
+	path := fmt.Sprintf("%s.%d", base, os.Getpid())
+	st, err := os.Stat(path)
+	if err != nil || st.Size() <= raceLogOffset {
+		return nil
+	}
+	f, err := os.Open(path)
+	if err != nil {
+		return nil
+	}
+	defer f.Close()
+	buf := make([]byte, st.Size()-raceLogOffset)
+	f.ReadAt(buf, raceLogOffset)
+	raceLogOffset = st.Size()
+	var out []string
+	for _, rep := range strings.Split(string(buf), "==================") {
+		if !strings.Contains(rep, "WARNING: DATA RACE") {
+			continue
+		}
+		top := raceTopFrames(rep)
+		rel := ""
+		for _, t := range top {
+			if prop == "RT" && strings.Contains(t.file, "/harness/litmus/") {
+				RaceReports[scenario]++
+				break
+			}
+			if strings.HasPrefix(t.file, "/repo/") && !strings.HasPrefix(t.file, "/repo/verifrt/") && !strings.HasSuffix(t.file, "_test.go") {
+				rel = t.fn
+				if i := strings.LastIndex(rel, "/"); i >= 0 {
+					rel = rel[i+1:]
+				}
+				break
+			}
+		}
+		if rel == "" {
+			continue // both accesses are in harness or library code
+		}
+		out = append(out, fmt.Sprintf("%s/%s/data-race/%s|the race detector reports an access pair not ordered by the program's synchronisation in this schedule:\n%s", prop, class(scenario), rel, firstLines(strings.TrimSpace(rep), 40)))
+	}
+	return out
+}
+
+type raceFrame struct{ fn, file string }
+
+// raceTopFrames returns the innermost frame of each access of a report ("Read at", "Write at",
+// "Previous read at", "Previous write at" sections).
+func raceTopFrames(rep string) []raceFrame {
+	var out []raceFrame
+	lines := strings.Split(rep, "\n")
+	for i := 0; i < len(lines); i++ {
+		l := strings.TrimSpace(lines[i])
+		if (strings.HasPrefix(l, "Read at") || strings.HasPrefix(l, "Write at") || strings.HasPrefix(l, "Previous read at") || strings.HasPrefix(l, "Previous write at")) && i+2 < len(lines) {
+			// skip runtime helper frames (slicecopy, growslice, memmove, mapaccess...)
+			for j := i + 1; j+1 < len(lines); j += 2 {
+				fn := strings.TrimSpace(lines[j])
+				file := strings.TrimSpace(lines[j+1])
+				if fn == "" {
+					break
+				}
+				if k := strings.Index(file, ":"); k >= 0 {
+					file = file[:k]
+				}
+				if strings.HasPrefix(fn, "runtime.") {
+					continue
+				}
+				out = append(out, raceFrame{fn: strings.TrimSuffix(fn, "()"), file: file})
+				break
+			}
+		}
+	}
+	return out
 }
